@@ -72,3 +72,41 @@ Definition known_browse_expiring (ifs : iftab) (h : list iter) : bool :=
 
 Definition is_order_fail (f : BrowserSpec.fail) : bool :=
   match f with BrowserSpec.F04_order _ _ _ => true | _ => false end.
+
+(* a condition on histories, not a finding: every browse call uses a channel number greater
+   than all channel numbers used before (the daemon creates a new channel per browse call; the
+   history builders number them 1, 2, 3, ...) *)
+Definition call_fresh (m : N) (cl : call) : option N :=
+  match cl with CBrowse _ ch => if m <? ch then Some ch else None | _ => Some m end.
+
+Fixpoint calls_fresh (m : N) (cls : list call) : option N :=
+  match cls with
+  | [] => Some m
+  | cl :: t => match call_fresh m cl with Some m' => calls_fresh m' t | None => None end
+  end.
+
+Fixpoint fresh_channels_from (m : N) (h : list iter) : bool :=
+  match h with
+  | [] => true
+  | it :: t => match calls_fresh m (i_calls it) with Some m' => fresh_channels_from m' t | None => false end
+  end.
+
+Definition fresh_channels (h : list iter) : bool := fresh_channels_from 0 h.
+
+Definition is_again_fail (f : BrowserSpec.fail) : bool :=
+  match f with BrowserSpec.F05_again _ _ _ => true | _ => false end.
+
+(* C05-stop-browse-drops-shared-records (decided in round 5): stop_browse of a name while PTR
+   records of ANOTHER name point to the same instance - remove_service_type drops the instance's
+   SRV / TXT / address records although the instance is still browsed under the other name *)
+Definition known_stop_second_name (ifs : iftab) (h : list iter) : bool :=
+  let L := log_of_history ifs h in
+  existsb (fun it => existsb (fun cl =>
+    match cl with
+    | CStop ty2 =>
+      existsb (fun d => (r_type (dl_rr d) =? TY_PTR) && beq (r_name (dl_rr d)) ty2
+                        && existsb (fun d' => (r_type (dl_rr d') =? TY_PTR)
+                                              && negb (beq (r_name (dl_rr d')) ty2)
+                                              && beq (alias_of (dl_rr d')) (alias_of (dl_rr d))) L) L
+    | _ => false
+    end) (i_calls it)) h.
